@@ -181,9 +181,13 @@ c = CONTRACTS[O + "sorted_assignments"]
 c.requires = ["WF(self)"]
 CONTRACTS[O + "sorted_state_derivatives"].requires = ["WF(self)"]
 CONTRACTS[O + "sorted_states"].requires = ["WF(self)"]
-c.where = {"INPUT": "ite(remove_unused, filter_used(self.intermediates, self.dependents(), len(self.intermediates)), self.intermediates) + self.state_derivatives"}
-c.ensures["lookup_of_sorted_names"] = "result == lookup_seq(self, sort_assignments(INPUT, assignments_only), len(sort_assignments(INPUT, assignments_only)))"
-c.comps = {0: "filter_used(intermediates, deps, j)", 1: "lookup_seq(self, names, j)"}
+c.where = {"ALL": "self.intermediates + self.state_derivatives",
+           "NAMES": "sort_assignments(ALL, assignments_only)",
+           "FULL": "lookup_seq(self, NAMES, len(NAMES))"}
+c.ensures["sorted_all_then_unused_intermediates_removed"] = (
+    "result == ite(remove_unused, filter_kept(FULL, self.dependents(), len(FULL)), FULL)")
+c.comps = {0: "lookup_seq(self, names, j)", 1: "filter_kept(assignments, deps, j)"}
+c.uses = [("C12.filter_kept_preserves_sd", {"A": "FULL", "D": "self.dependents()", "j": "len(FULL)"})]
 c.properties = ("C12", "C09", "C04")
 
 # C12: rhs/schemes number the output slots along sorted_assignments(remove_unused=R) while state_index and the
@@ -211,3 +215,29 @@ c.loops = {
                       "covers": "implies(d in assignment.value.dependencies and POS(d) < k, d in dependencies and assignment.name in dependencies[d])"}},
 }
 c.properties = ("C12", "C13")
+
+defspec("filter_kept", {"A": "Seq[Atom]", "D": "Dict[Name,Set[Name]]", "j": "Int"}, "Seq[Atom]", """
+def filter_kept(A, D, j):
+    if j <= 0:
+        return empty("Seq[Atom]")
+    if (not is_intermediate(A[j - 1])) or (A[j - 1].name in D):
+        return filter_kept(A, D, j - 1) + [A[j - 1]]
+    return filter_kept(A, D, j - 1)
+""")
+
+# ----------------------------------------------------------------------------- missing_variables
+defspec("index_names", {"NS": "Seq[Name]", "j": "Int"}, "Dict[Name,Int]", """
+def index_names(NS, j):
+    if j <= 0:
+        return empty("Dict[Name,Int]")
+    return dict_set(index_names(NS, j - 1), NS[j - 1], j - 1)
+""")
+
+c = CONTRACTS[O + "missing_variables"]
+c.ghost = {"v": "Name"}
+c.internal["index_over_sorted_names"] = "result == index_names(sorted(variable_names), len(sorted(variable_names)))"
+c.comps = {1: "index_names(sorted(variable_names), j)"}
+c.properties = ("C13", "C09")
+c.note = ("the set `variable_names` is a comprehension over the keys of dependents(); its membership is characterised "
+          "by the auto-generated comprehension definition (used-but-undefined names); the result is a function of that set")
+c.raises = {"GotranxError": "maybe"}
